@@ -532,6 +532,10 @@ class QuicConnection:
 
         :param now: The current time.
         """
+        if not self._network_paths:
+            # no packet has been accepted yet (e.g. a server whose first
+            # datagram was discarded): there is no peer to send anything to
+            return []
         network_path = self._network_paths[0]
 
         if self._state in END_STATES:
